@@ -4,4 +4,18 @@ go 1.24
 
 require github.com/sheerbytes/sheerbytes v0.0.0
 
+require (
+	github.com/gorilla/websocket v1.5.1 // indirect
+	github.com/pion/dtls/v2 v2.2.7 // indirect
+	github.com/pion/logging v0.2.4 // indirect
+	github.com/pion/randutil v0.1.0 // indirect
+	github.com/pion/stun v0.6.1 // indirect
+	github.com/pion/transport/v2 v2.2.2 // indirect
+	github.com/pion/turn/v2 v2.1.6 // indirect
+	github.com/quic-go/quic-go v0.58.0 // indirect
+	golang.org/x/crypto v0.41.0 // indirect
+	golang.org/x/net v0.43.0 // indirect
+	golang.org/x/sys v0.35.0 // indirect
+)
+
 replace github.com/sheerbytes/sheerbytes => /repo
